@@ -660,6 +660,10 @@ impl SetComprehension {
 
 impl Capture {
     fn evaluate(&self, exec: &mut ExecutionContext) -> Result<Value, ExecutionError> {
+        // captures in attribute shorthands are not resolved by the checker
+        if self.quantifier == tree_sitter::CaptureQuantifier::Zero {
+            return Err(ExecutionError::UndefinedCapture(format!("{}", self)));
+        }
         Ok(Value::from_nodes(
             exec.graph,
             exec.mat
